@@ -629,7 +629,7 @@ class FnTrans:
         if direct and cname.startswith('llvm.'):
             if cname.startswith(INTRIN_SKIP): return
             base = cname.split('.')[1]
-            if base == 'memcpy': O(f"  memcpy((void*){av[0]}, (const void*){av[1]}, {av[2]});"); return
+            if base == 'memcpy': O(f"  ir_memcpy((void*){av[0]}, (const void*){av[1]}, {av[2]});"); return
             if base == 'memmove': O(f"  ir_memmove((void*){av[0]}, (const void*){av[1]}, {av[2]});"); return
             if base == 'memset': O(f"  memset((void*){av[0]}, (int){av[1]}, {av[2]});"); return
             if base in MATH1 and MODEL == 'ie': ret(f"ie_{base}({av[0]})"); return
@@ -970,6 +970,12 @@ def translate(text, roots=None, rename=None, stubs=(), model='bit', shrink=(), d
         ps = ', '.join(em.ctype(t.to if (decls_only and i in f.get('byval', ())) else t) for i, (t, _) in enumerate(f['params']))
         if f['vararg']: ps = (ps + ', ...') if ps else '...'
         decls.append(f"{em.ctype(f['ret'])} {em.rename.get(n, san(n))}({ps or 'void'});")
+    if MODEL == 'ie':
+        # libm functions without an exact integer meaning are supplied by the harness (free symbols / contracts): declare them
+        for n in sorted(em.used):
+            if n in ('cos', 'sin', 'tan', 'acos', 'asin', 'atan', 'atan2', 'sqrt', 'exp2', 'log2', 'pow', 'fmod', 'hypot', 'exp', 'log') and n not in em.rename and n in m.funcs:
+                f = m.funcs[n]
+                decls.append(f"{em.ctype(f['ret'])} ie_{n}({', '.join(em.ctype(t) for t, _ in f['params'])});")
     gdecls = []
     for g, (ty, init, ext) in ginit.items():
         nm = em.rename.get(g, san(g))
